@@ -292,6 +292,14 @@ class C12(Check):
             if q in flows:
                 c["flow_desc_len"] = flows[q]
             cfgs.append(c)
+        # an open-type value of the NGAP message (the first / the second one found) of EXACTLY 16384 octets: its fragmented
+        # length ends with a zero length octet
+        for which in (1, 2):
+            c = proc.default_cfg(self.rng.fork("exact%d" % which), counts=[1, 1, 0, 0, 0])
+            c["qos_lens"] = [9 + which]
+            c["flow_desc_len"] = 16250
+            c["exact16k"] = which
+            cfgs.append(c)
         with cf.ThreadPoolExecutor(max_workers=8) as ex:
             runs = list(ex.map(lambda c: proc.run(binary, c, self.seed + c["qos_lens"][0]), cfgs))
         rows = []
